@@ -25,6 +25,7 @@ static uint64_t mix(uint64_t z) { z += 0x9E3779B97F4A7C15ULL; z = (z ^ (z >> 30)
 typedef struct { int tag, depth, cmode, detached_self; } targ_t;
 static targ_t targs[MAXT];
 
+static myth_key_t tls_key[2];
 static void * body(void * a);
 static void __attribute__((noinline)) nested_exit(int n, long v) { volatile char pad[64]; pad[0] = (char)n; if (n > 0) nested_exit(n - 1, v); else myth_exit((void *)v); (void)pad; }
 
@@ -33,6 +34,12 @@ static void * body(void * a) {
   ctl_name_thread(tag);
   ctl_note("start %d", tag);
   ran[tag]++;
+  /* thread-specific data starts empty in every thread, also on a recycled record and whichever creation
+     order started it (C10: "a thread that never stored reads NULL") */
+  for (int i = 0; i < 2; i++) {
+    if (myth_getspecific(tls_key[i]) != 0) FAIL("thread %d starts with a value under key %d that it never stored (%p)", tag, (int)tls_key[i], myth_getspecific(tls_key[i]));
+    myth_setspecific(tls_key[i], (void *)(long)(tag * 2 + i + 1));
+  }
   volatile unsigned long canary[32];
   for (int i = 0; i < 32; i++) canary[i] = 0xC0FFEE00UL + tag * 64 + i;
   if (me->detached_self) myth_detach(myth_self());
@@ -86,13 +93,20 @@ static void * body(void * a) {
     int ct = ctag[c]; void * v = 0;
     if (rmode[c] == 1) { myth_join(th[c], &v); }
     else if (rmode[c] == 2) { int e; int n = 0; while ((e = myth_tryjoin(th[c], &v)) == EBUSY) { myth_yield(); ctl_spin(); if (++n > 100000) { FAIL("tryjoin never succeeds"); break; } } if (e != 0 && e != EBUSY) FAIL("tryjoin returned %d", e); }
-    else if (rmode[c] == 3) { struct timespec ts; clock_gettime(CLOCK_REALTIME, &ts); ts.tv_sec += 3600; int e = myth_timedjoin(th[c], &v, &ts); if (e) FAIL("timedjoin with far deadline returned %d", e); }
+    else if (rmode[c] == 3) {
+      struct timespec ts; clock_gettime(CLOCK_REALTIME, &ts);
+      if (ct & 1) ts.tv_sec += 3600; else { ts.tv_sec = (time_t)((~(unsigned long)0) >> 1); ts.tv_nsec = 999999999; }   /* "no deadline" */
+      int e = myth_timedjoin(th[c], &v, &ts);
+      if (e) FAIL("timedjoin with a %s deadline returned %d", (ct & 1) ? "far" : "never-expiring (tv_sec = LONG_MAX)", e);
+    }
     else if (rmode[c] == 5) { myth_yield(); myth_yield(); myth_detach(th[c]); __sync_fetch_and_add(&created_detached, 1); continue; }
     else continue;
     if ((long)v != ct + 1000) FAIL("join(mode %d) of thread %d returned %ld", rmode[c], ct, (long)v);
     if (ran[ct] != 1 || cell[ct] != ct * 7L) FAIL("after join: thread %d ran %d times, cell %ld (writes not visible?)", ct, ran[ct], cell[ct]);
     for (int i = 0; i < 32; i++) if (canary[i] != 0xC0FFEE00UL + tag * 64 + i) FAIL("stack canary of thread %d corrupted after join", tag);
   }
+  for (int i = 0; i < 2; i++)
+    if (myth_getspecific(tls_key[i]) != (void *)(long)(tag * 2 + i + 1)) FAIL("thread %d lost its value under key %d", tag, (int)tls_key[i]);
   cell[tag] = tag * 7L;
   for (int i = 0; i < 32; i++) if (canary[i] != 0xC0FFEE00UL + tag * 64 + i) FAIL("stack canary of thread %d corrupted at exit", tag);
   /* detached threads announce completion last */
@@ -110,6 +124,7 @@ int main(int argc, char ** argv) {
   pseed = argc > 4 ? strtoull(argv[4], 0, 10) : 1;
   myth_globalattr_t ga; myth_globalattr_init(&ga); myth_globalattr_set_n_workers(&ga, W);
   myth_init_ex(&ga);
+  { myth_key_t k; for (int i = 0; i < 40; i++) { myth_key_create(&k, 0); if (i == 3) tls_key[0] = k; if (i == 37) tls_key[1] = k; } }
   ctl_init(W);
   ctl_name_thread(0);
   ctl_activate();
